@@ -972,3 +972,53 @@ def rule_dedup_under_row_truth(db: ProgramDB) -> List[Instance]:
     if n < 4:
         raise AnalysisError(f"only {n} duplicate test(s) in evaluation generators found")
     return out
+
+
+# ---------------------------------------------------------------------------------- EVAL-PARENT-SET
+EVAL_PARENT_SETTERS = {
+    # function -> why its operands need to know who is evaluating them (confirmed by reading; the other evaluators - ExceptIf,
+    # ForAll, Concatenate, the kwargs expression - leave the graph parent in force)
+    "The._evaluate_": "the descriptor asks its parent (the quantifier) what to keep when it suppresses duplicates",
+    "An._evaluate__": "the descriptor asks its parent (the quantifier) what to keep when it suppresses duplicates",
+    "QueryObjectDescriptor._evaluate_": "the root condition's duplicate key starts from the descriptor that evaluates it, not from the description built last on it",
+    "DomainMapping._evaluate__": "a mapping's child is shared by every expression built on it",
+    "Comparator._evaluate__": "operands are shared between comparisons",
+    "AND._evaluate__": "an operand can be an operand of another operator as well",
+    "ElseIf._evaluate__": "an operand can be an operand of another operator as well",
+}
+
+
+def rule_eval_parent_set(db: ProgramDB) -> List[Instance]:
+    """A node can have several parents in the graph (a condition object used by two queries, an operand shared by two
+    operators); `_parent_` then names the one that was linked first.  What a node keeps when it suppresses duplicates is
+    asked of its parent, so the operators in the table tell the operand which of its parents is evaluating it
+    (`operand._eval_parent_ = self`) before they evaluate it - on every path to the evaluation."""
+    from ..cfg import CFG
+    out = []
+    model = site_model(db)
+    for short, why in sorted(EVAL_PARENT_SETTERS.items()):
+        cname, mname = short.split(".")
+        m = db.method(cname, mname, inherited=False)
+        sites = [s for s in model.sites if s.fn is m and s.origins and all(o.startswith("self.") and "_conclusion_" not in o and "selected_variables" not in o for o in s.origins)]
+        if not sites:
+            raise AnalysisError(f"{short}: no evaluation of an operand found")
+        cfg = CFG(m)
+        for s in sites:
+            recv = unparse(s.receiver)
+            node = next((nd for nd in cfg.nodes if nd.ast is not None and any(x is s.call for x in ast.walk(nd.ast if nd.kind != "for" else nd.stmt.iter))), None)
+            if node is None:
+                out.append(inst("EVAL-PARENT-SET", UNDECIDED, m, f"{short}[{recv}]", "evaluation site not located in the control-flow graph", line=s.line))
+                continue
+
+            def sets(nd, recv=recv):
+                a = nd.ast
+                return nd.kind == "stmt" and isinstance(a, ast.Assign) and any(
+                    isinstance(t, ast.Attribute) and t.attr == "_eval_parent_" and unparse(t.value) == recv for t in a.targets) and unparse(a.value) == "self"
+            p = cfg.find_path(cfg.entry, lambda nd: nd.id == node.id, kinds=("n",), blocked=sets)
+            ok = p is None
+            out.append(inst("EVAL-PARENT-SET", HOLDS if ok else VIOLATION, m, f"{short}[{recv} told who evaluates it]",
+                            f"`{recv}._eval_parent_ = self` precedes the evaluation on every path" if ok else
+                            f"`{unparse(s.call)[:60]}` can be reached without `{recv}._eval_parent_ = self` ({why}): an operand with two parents in the graph asks the "
+                            f"wrong one what to keep - one disjunctive condition object used as the root of two queries makes the query that selects more "
+                            f"variables lose rows (12 pairs instead of 16)", line=s.line))
+    return out
